@@ -352,6 +352,15 @@ func c28Gen(w *bufio.Writer, seed int64, tier string) {
 	tsToks := []string{"r0", "r0", "r0", "r-1", "r1", "r-60", "r60", fmt.Sprintf("r-%d", win-3), fmt.Sprintf("r%d", win-3),
 		fmt.Sprintf("r-%d", win+3), fmt.Sprintf("r%d", win+3), "r-100000", "r100000", "a0", "a1", "a4611686018427387904",
 		"a9223372036854775807", "a9223372036854775808", "a18446744073709551615", "a9223372036792640000", "a20000000000"}
+	// wrap points of seconds->nanoseconds arithmetic: k*2^64 ns = k*18446744073.7 s, 2^63 ns = 9223372036.85 s
+	for _, k := range []int64{1, -1, 2, -2, 3, -3} {
+		for _, d := range []int64{0, 100, -100, 400} {
+			tsToks = append(tsToks, fmt.Sprintf("r%d", k*18446744074+d))
+		}
+	}
+	for _, b := range []int64{9223372036, -9223372036, 9223372037, -9223372037} {
+		tsToks = append(tsToks, fmt.Sprintf("r%d", b), fmt.Sprintf("r%d", b+100))
+	}
 	sigs := []string{"valid", "valid", "valid", "xkind", "xkind", "zero", "bad", "otherkey", "wrongorigin", "wrongid", "wrongts"}
 	vias := []string{"fs", "fw", "qs", "qw"}
 	for i := 0; i < n; i++ {
